@@ -166,19 +166,27 @@ fn scan_dot(cur: &mut Peekable<CharIndices>) -> Result<Token, Error> {
         _ => TokenType::Dot,
     };
 
+    let mut prev = None;
     while let Some(&(offset, c)) = cur.peek() {
         if c == '.' {
             token_type = TokenType::Symbol;
         }
         let check = match token_type {
             TokenType::Symbol => is_subsequent_identifier(c),
-            TokenType::Number => is_subsequent_number(c),
+            TokenType::Number => is_subsequent_number(c) || is_exponent_sign(prev, c),
             _ => false,
         };
         if !check && start != end {
-            break;
+            // What started as a number goes on as a symbol, as in scan_number:
+            // .5g is one datum, not .5 followed by g.
+            if token_type == TokenType::Number && is_subsequent_identifier(c) && c != ';' {
+                token_type = TokenType::Symbol;
+            } else {
+                break;
+            }
         }
         end = offset + c.len_utf8();
+        prev = Some(c);
         cur.next();
     }
 
@@ -296,8 +304,9 @@ fn scan_number(cur: &mut Peekable<CharIndices>) -> Result<Token, Error> {
     let start = cur.peek().unwrap().0;
     let mut end = start;
     let mut token_type = TokenType::Number;
+    let mut prev = None;
     while let Some(&(offset, c)) = cur.peek() {
-        if !is_subsequent_number(c) && start != end {
+        if !is_subsequent_number(c) && !is_exponent_sign(prev, c) && start != end {
             if is_subsequent_identifier(c) && c != ';' {
                 token_type = TokenType::Symbol;
             } else {
@@ -305,6 +314,7 @@ fn scan_number(cur: &mut Peekable<CharIndices>) -> Result<Token, Error> {
             }
         }
         end = offset + c.len_utf8();
+        prev = Some(c);
         cur.next();
     }
     Ok(Token::new((start, end), token_type))
@@ -312,6 +322,11 @@ fn scan_number(cur: &mut Peekable<CharIndices>) -> Result<Token, Error> {
 
 pub fn is_initial_number(c: char) -> bool {
     c.is_ascii_digit() || c == '+' || c == '-'
+}
+
+/// The sign of an exponent belongs to the numeral it is part of: 1e-7, 2.5E+3.
+fn is_exponent_sign(prev: Option<char>, c: char) -> bool {
+    (c == '+' || c == '-') && matches!(prev, Some('e' | 'E'))
 }
 
 pub fn is_subsequent_number(c: char) -> bool {
